@@ -363,6 +363,17 @@ func fileReadAux(L *LState, file *lFile, idx int) int {
 				switch opt {
 				case 'n':
 					var v LNumber
+					// like fscanf, skip white space including line ends
+					for {
+						c, rerr := file.reader.ReadByte()
+						if rerr != nil {
+							break
+						}
+						if c != ' ' && (c < '\t' || c > '\r') {
+							file.reader.UnreadByte()
+							break
+						}
+					}
 					_, err = fmt.Fscanf(file.reader, LNumberScanFormat, &v)
 					if err == io.EOF {
 						L.Push(LNil)
